@@ -34,7 +34,7 @@ def run(chk):
     from harness.drivers import fsfault
 
     # ---- B1 ----
-    r = chk.tlc("FsFault", "FsFault_TRUE.cfg", workers=4, label="design with atomic close")
+    r = chk.tlc("FsFault", "FsFault_TRUE.cfg", workers=4, coverage=True, label="design with atomic close")
     if r.violated:
         raise MachineryError(f"FsFault design violated: {r.counterexample()[:2000]}")
     chk.tlc("FsFault", "FsFault_FALSE.cfg", workers=4, expect_violation="C38_Intact", label="vacuity guard: unlink-then-dump close")
